@@ -15,28 +15,16 @@ use std::path::{Path, PathBuf};
 use std::rc::Rc;
 use std::sync::atomic::{AtomicU64, Ordering};
 
-#[derive(Clone, Debug, PartialEq)]
-struct Meta {
-    serial: u64,
-    pkg: String,
-    name: String,
-    kind: &'static str,
-}
+type Meta = crate::scenario::DocMeta;
 
 #[derive(Clone)]
 struct Entry {
-    /// the path as spelled by the call that created the entry
     text: String,
     meta: Option<Meta>,
 }
 
 fn meta_of(c: &Content) -> Option<Meta> {
-    c.as_doc().map(|d| Meta {
-        serial: d.serial,
-        pkg: d.pkg.clone(),
-        name: d.name.clone(),
-        kind: d.kind.as_str(),
-    })
+    c.meta()
 }
 
 /// Result of parsing one text alone in a fresh parser (through the public API only)
@@ -278,7 +266,9 @@ fn run_inner(w: &mut World, s: &HistScenario) -> RunOut {
     let mut interesting_mutation_pending = false;
     let mut nontrivial = false;
     let mut removed_total = 0usize;
-    let mut stale_candidates: BTreeSet<String> = BTreeSet::new();
+    // live ids loaded from disk -> slot; ids whose file changed on disk after they were loaded
+    let mut loaded_from: BTreeMap<PathBuf, String> = BTreeMap::new();
+    let mut stale: BTreeSet<PathBuf> = BTreeSet::new();
     let mut cur_state = abstract_state(w, &model);
     states.push(cur_state);
 
@@ -348,6 +338,8 @@ fn run_inner(w: &mut World, s: &HistScenario) -> RunOut {
                 } else if ever_removed.contains(&id) {
                     w.count("probe_remove_then_readd");
                 }
+                loaded_from.remove(&id);
+                stale.remove(&id);
                 // Note: BTreeMap::insert keeps the old key on replacement, like the library's HashMap
                 model.insert(
                     id,
@@ -381,6 +373,8 @@ fn run_inner(w: &mut World, s: &HistScenario) -> RunOut {
                         break;
                     }
                 }
+                loaded_from.remove(&id);
+                stale.remove(&id);
                 if model.remove(&id).is_some() {
                     w.count("removes_live");
                     ever_removed.insert(id);
@@ -410,7 +404,11 @@ fn run_inner(w: &mut World, s: &HistScenario) -> RunOut {
                 }
                 let slot = disk_slot(path);
                 // the parser must not notice: every live id loaded from this slot is now stale
-                stale_candidates.insert(slot.clone());
+                for (id, sl) in &loaded_from {
+                    if *sl == slot {
+                        stale.insert(id.clone());
+                    }
+                }
                 disk.insert(slot, (bytes, meta, content.text()));
             }
             Op::AddFile {
@@ -588,7 +586,8 @@ fn run_inner(w: &mut World, s: &HistScenario) -> RunOut {
                             if model.contains_key(&id) {
                                 w.count("replaces");
                             }
-                            stale_candidates.remove(&slot);
+                            stale.remove(&id);
+                            loaded_from.insert(id.clone(), slot.clone());
                             model.insert(id, Entry { text, meta });
                         } else {
                             w.count("loads_failed");
@@ -623,16 +622,8 @@ fn run_inner(w: &mut World, s: &HistScenario) -> RunOut {
             nontrivial = prop == Prop::C12 || nontrivial;
         }
         interesting_mutation_pending = false;
-        for slot in stale_candidates.iter() {
-            if model.keys().any(|k| disk_slot(&k.to_string_lossy()) == *slot || {
-                match &w.scratch {
-                    Some(dir) => k.to_string_lossy().strip_prefix(&format!("{dir}/")).map(|r| disk_slot(r) == *slot).unwrap_or(false),
-                    None => false,
-                }
-            }) {
-                w.count("fault_stale_disk_observed");
-                break;
-            }
+        if stale.iter().any(|id| model.contains_key(id)) {
+            w.count("fault_stale_disk_observed");
         }
 
         let reference = w.fresh(sorted_files(&model), policy);
